@@ -150,6 +150,61 @@ mod leaves {
         kani::cover!(exact && rest < want);
     }
 
+    /// std::io::Cursor<Vec<u8>> as a write buffer (shims/cursor_write.rs, spec cur_written / cur_wr): a write at a position
+    /// inside or at the end of the buffer overwrites from there and extends the Vec as needed, returns Ok(len) and advances;
+    /// read_to_end appends the rest to the destination and moves to the end.
+    /// (BOUNDED: buffer of 0..=6 bytes, data of 0..=4 bytes.)
+    #[kani::proof]
+    #[kani::unwind(12)]
+    fn cursor_vec_write_and_read_to_end_up_to_6_bytes() {
+        use std::io::{Read, Write};
+        let buf: [u8; 6] = kani::any();
+        let len: usize = kani::any();
+        kani::assume(len <= 6);
+        let pos: usize = kani::any();
+        kani::assume(pos <= len);
+        let data: [u8; 4] = kani::any();
+        let dl: usize = kani::any();
+        kani::assume(dl <= 4);
+        let mut c = Cursor::new(buf[..len].to_vec());
+        c.set_position(pos as u64);
+        match c.write(&data[..dl]) {
+            Ok(n) => assert!(n == dl),
+            Err(e) => { std::mem::forget(e); assert!(false); }
+        }
+        assert!(c.position() == (pos + dl) as u64);
+        // cur_written(all, pos, data)
+        let newlen = if pos + dl >= len { pos + dl } else { len };
+        {
+            let all = c.get_ref();
+            assert!(all.len() == newlen);
+            let mut i = 0;
+            while i < newlen {
+                let want = if i < pos { buf[i] } else if i < pos + dl { data[i - pos] } else { buf[i] };
+                assert!(all[i] == want);
+                i += 1;
+            }
+        }
+        // read_to_end from an arbitrary position inside the new buffer
+        let rp: usize = kani::any();
+        kani::assume(rp <= newlen);
+        c.set_position(rp as u64);
+        let mut dst: Vec<u8> = Vec::new();
+        dst.push(0xEE);
+        match c.read_to_end(&mut dst) {
+            Ok(n) => assert!(n == newlen - rp),
+            Err(e) => { std::mem::forget(e); assert!(false); }
+        }
+        assert!(dst.len() == 1 + newlen - rp);
+        assert!(dst[0] == 0xEE);
+        assert!(c.position() == newlen as u64);
+        let mut j = 0;
+        while j < newlen - rp { assert!(dst[1 + j] == c.get_ref()[rp + j]); j += 1; }
+        kani::cover!(pos < len && pos + dl > len);
+        kani::cover!(pos + dl < len && dl > 0);
+        kani::cover!(pos == len && dl == 4);
+    }
+
     // ---- script stack primitives (through the cfg(bsv_verif) hook) ----
     use bsv::verif_hooks::ScriptStack;
 
